@@ -7,6 +7,7 @@ use checks::*;
 
 fn main() {
 	refmodel::set_eps(eps());
+	refmodel::set_floor(ValueType::MIN_POSITIVE as f64);
 	let exe = std::env::args().next().unwrap_or_default();
 	let is_c06 = exe.ends_with("c06");
 	let prop = if is_c06 { "C06" } else { "C05" };
